@@ -341,6 +341,9 @@ pub fn run(cfg: &Cfg, rep: &mut Rep) {
     let lats: Vec<Vec<i128>> = SCALES.iter().map(|s| gen::reading_lattice(*s, &w.leap)).collect();
     let mut i = 0usize;
     for (si, s) in SCALES.iter().enumerate() {
+        if cfg.fuzz {
+            break;
+        }
         for &c in &lats[si] {
             i += 1;
             if i % n == sh {
@@ -361,7 +364,7 @@ pub fn run(cfg: &Cfg, rep: &mut Rep) {
     }
     for x in SPECIAL_INPUTS {
         i += 1;
-        if i % n != sh {
+        if i % n != sh || cfg.fuzz {
             continue;
         }
         rep.class("build/zero-like-input");
@@ -387,6 +390,7 @@ pub fn run(cfg: &Cfg, rep: &mut Rep) {
     let mut r = Rng::new(cfg.seed, 0x1700 + sh as u64);
     let nrand = cfg.budget(2_500_000);
     for k in 0..nrand {
+        let k = cfg.k(k, &mut r);
         let si = r.below(9) as usize;
         let s = SCALES[si];
         let c = match r.below(5) {
